@@ -69,6 +69,17 @@ func VerifH_IncludeEquivalence() {
 	split := verifRender(lines[:2]) + "INCLUDE inc.jst\n" + verifRender(lines[2+kr:3+kr]) + "INCLUDE inc.jst\n"
 	verifFSInit()
 	verifFiles = map[string][]byte{verifDir + "/inc.jst": []byte(inc)}
+	if verifrt.Bound("NEST") == 1 {
+		// one more level: inc.jst only includes inc2.jst, which holds the run
+		verifFiles = map[string][]byte{verifDir + "/inc.jst": []byte("INCLUDE inc2.jst\n"), verifDir + "/inc2.jst": []byte(inc)}
+	}
+	if verifrt.Bound("NEST") == 2 {
+		// several files from one place: the first line of the run in inc.jst, the rest in inc2.jst, included one after the other
+		first := verifRender(run[:1])
+		rest := verifRender(run[1:])
+		verifFiles = map[string][]byte{verifDir + "/inc.jst": []byte(first), verifDir + "/inc2.jst": []byte(rest)}
+		split = verifRender(lines[:2]) + "INCLUDE inc.jst\nINCLUDE inc2.jst\n" + verifRender(lines[2+kr:3+kr]) + "INCLUDE inc.jst\nINCLUDE inc2.jst\n"
+	}
 	verifFSWrite(verifFiles)
 	verifrt.Note("inline", inline)
 	verifrt.Note("split", split)
